@@ -328,6 +328,35 @@ def check_case(ctx, case):
                           route, rooted_flag, rt1.canon(), rrt.canon(), restricted.canon(),
                           [bin(b.split_bitmask) for b in order]))
 
+    # ---- clause 1 again: re-encoding after the taxa on the leaves changed -------------------------------
+    # (a tree that was encoded before must not keep anything from the old encoding)
+    t3 = shapes.build_tree(spec, ns, taxa, is_rooted=rooted_flag)
+    t3.encode_bipartitions(suppress_unifurcations=False, collapse_unrooted_basal_bifurcation=False)
+    pre3, _ = snapshot(t3)
+    lv = pre3.leaves()
+    k = 1 + case["encperm"] % max(1, n - 1) if n > 1 else 0
+    if case["A"] % 2 == 0 or n < 2:
+        # rotate the taxa over the leaves
+        old = [pre3.obj[i].taxon for i in lv]
+        for j, i in enumerate(lv):
+            pre3.obj[i].taxon = old[(j + k) % len(old)]
+        bits3 = bits
+        ctx.cls("reencode:taxa_rotated")
+    else:
+        # migrate to a namespace holding the same labels in another accession order
+        import dendropy as _d
+        order3 = sorted(bits, key=lambda i: (-(i % 3), i))
+        ns3 = _d.TaxonNamespace()
+        bits3 = {}
+        for acc, idx in enumerate(order3):
+            ns3.add_taxon(_d.Taxon(label="T%d" % idx))
+            bits3[idx] = acc
+        t3.migrate_taxon_namespace(ns3)
+        ctx.cls("reencode:namespace_migrated")
+    now3, problems3 = snapshot(t3)
+    if not problems3 and now3.leafset() == rt1.leafset():
+        encode_and_check(ctx, t3, now3, bits3, rooted, opts, "T3(re-encoded)")
+
     # ---- clause 4b: predicates on directly constructed bipartitions -----------
     leaf_ids = sorted(rt1.leafset(), key=lambda s: int(s[1:]))
     full = frozenset(leaf_ids)
